@@ -4,9 +4,16 @@
 
 package peers
 
-// memoOK: the memoised thresholds, when present, satisfy the defining property of the threshold for
-// the current number of distinct keys. NewPeerSet leaves both nil.
-//@ ghost func (ps *PeerSet) memoOK() bool { return (ps.superMajority == nil || (3*(*ps.superMajority) > 2*len(ps.ByPubKey) && 3*(*ps.superMajority-1) <= 2*len(ps.ByPubKey))) && (ps.trustCount == nil || ((forall s int :: s > *ps.trustCount ==> 3*s > len(ps.ByPubKey)) && (1 > *ps.trustCount ==> len(ps.ByPubKey) <= 1))) }
+// Memo cells: each may hold only a value that satisfies the defining property of what it caches, stated over
+// data that is fixed once the set is built (the key index and the peer slice). NewPeerSet leaves them empty.
+//@ ghost func (ps *PeerSet) smMemo() bool { return ps.superMajority == nil || (3*(*ps.superMajority) > 2*len(ps.ByPubKey) && 3*(*ps.superMajority-1) <= 2*len(ps.ByPubKey)) }
+//@ ghost func (ps *PeerSet) tcMemo() bool { return ps.trustCount == nil || ((forall s int :: s > *ps.trustCount ==> 3*s > len(ps.ByPubKey)) && (1 > *ps.trustCount ==> len(ps.ByPubKey) <= 1)) }
+//@ ghost func (ps *PeerSet) hashMemo() bool { return len(ps.hash) == 0 || __seqeq(ps.hash, PSHashOf(ps.Peers)) }
+//@ ghost func (p *Peer) idMemo() bool { return p.id == 0 || p.id == keys.KeyID(common.KeyBytesOf(p.PubKeyHex)) }
+//@ memo PeerSet.superMajority smMemo
+//@ memo PeerSet.trustCount tcMemo
+//@ memo PeerSet.hash hashMemo
+//@ memo Peer.id idMemo
 
 //@ func (peerSet *PeerSet) Len() int
 //@   requires peerSet != nil
@@ -16,20 +23,18 @@ package peers
 //@ func (peerSet *PeerSet) SuperMajority() int
 //@   ints checked
 //@   safety on
-//@   requires peerSet != nil && peerSet.memoOK() && len(peerSet.ByPubKey) <= 1099511627776
-//@   modifies peerSet.superMajority
+//@   requires peerSet != nil && len(peerSet.ByPubKey) <= 1099511627776
+//@   modifies nothing
 //@   ensures[least]  3*ret0 > 2*len(peerSet.ByPubKey) && 3*(ret0-1) <= 2*len(peerSet.ByPubKey)
-//@   ensures[memo]   peerSet.memoOK()
 //@   aux[closed]     old(peerSet.superMajority) == nil ==> ret0 == 2*len(peerSet.ByPubKey)/3 + 1
 
 //@ func (peerSet *PeerSet) TrustCount() int
 //@   ints checked
 //@   safety on
-//@   requires peerSet != nil && peerSet.memoOK() && len(peerSet.ByPubKey) < 2147483648 && len(peerSet.ByPubKey) <= len(peerSet.Peers)
-//@   modifies peerSet.trustCount
+//@   requires peerSet != nil && len(peerSet.ByPubKey) < 2147483648 && len(peerSet.ByPubKey) <= len(peerSet.Peers)
+//@   modifies nothing
 //@   ensures[strict-third] forall s int :: s > ret0 ==> 3*s > len(peerSet.ByPubKey)
 //@   ensures[single]       1 > ret0 ==> len(peerSet.ByPubKey) <= 1
-//@   ensures[memo]         peerSet.memoOK()
 //@   aux[closed]           old(peerSet.trustCount) == nil ==> ret0 == __ite(len(peerSet.Peers) > 1, (len(peerSet.ByPubKey)+2)/3, 0)
 
 //@ lemma sm_le(n int, sm int)
@@ -47,3 +52,55 @@ package peers
 //@ lemma trusted_has_honest(n int, f int, tc int, s int)
 //@   requires n >= 1 && f >= 0 && 3*f < n && (forall t int :: t > tc ==> 3*t > n) && s > tc
 //@   ensures[honest] s > f
+
+//@ import "github.com/mosaicnetworks/babble/src/common"
+//@ import "github.com/mosaicnetworks/babble/src/crypto/keys"
+
+// KeyOf: the canonical (upper-case) key string under which a peer is indexed.
+//@ ghost func KeyOf(p *Peer) string { return common.Upper(p.PubKeyHex) }
+// PeerOK: a usable element of a peer slice
+//@ ghost func PeerOK(p *Peer) bool { return p != nil }
+// PSHashOf: by definition, the iterated SHA256 over the peers' key bytes, in slice order.
+//@ ghost func PSHashOf(ps []*Peer) []byte
+
+// wf: the index maps agree with the slice: every listed peer is indexed under its canonical key, every
+// indexed peer is listed, and the thresholds' memo cells are consistent.
+//@ ghost func (ps *PeerSet) WF() bool { return ps.ByPubKey != nil && ps.ByID != nil && len(ps.ByPubKey) <= len(ps.Peers) && len(ps.Peers) < 2147483648 && (forall i int :: 0 <= i && i < len(ps.Peers) ==> ps.Peers[i] != nil && __in(KeyOf(ps.Peers[i]), ps.ByPubKey)) && (forall k string :: __in(k, ps.ByPubKey) ==> ps.ByPubKey[k] != nil && KeyOf(ps.ByPubKey[k]) == k) }
+
+//@ func (p *Peer) PubKeyString() string
+//@   requires p != nil
+//@   modifies nothing
+//@   ensures[def] ret0 == KeyOf(p)
+
+//@ func (p *Peer) PubKeyBytes() []byte
+//@   safety on
+//@   requires p != nil
+//@   modifies nothing
+//@   ensures[def] __seqeq(ret0, common.KeyBytesOf(p.PubKeyHex))
+
+//@ func (p *Peer) ID() uint32
+//@   safety on
+//@   requires PeerOK(p)
+//@   modifies nothing
+//@   ensures[def]  ret0 == keys.KeyID(common.KeyBytesOf(p.PubKeyHex)) || (ret0 == 0 && keys.KeyID(common.KeyBytesOf(p.PubKeyHex)) == 0)
+
+//@ func (peerSet *PeerSet) initMaps()
+//@   requires peerSet != nil && len(peerSet.Peers) < 2147483648 && (forall i int :: 0 <= i && i < len(peerSet.Peers) ==> PeerOK(peerSet.Peers[i]))
+//@   modifies peerSet.ByPubKey, peerSet.ByID
+//@   ensures[wf]    peerSet.WF()
+//@   ensures[fresh] __fresh(peerSet.ByPubKey) && __fresh(peerSet.ByID)
+//@   loop 1 invariant[maps]  peerSet.ByPubKey != nil && peerSet.ByID != nil && __fresh(peerSet.ByPubKey) && __fresh(peerSet.ByID) && len(peerSet.ByPubKey) <= __idx()
+//@   loop 1 invariant[in]    forall i int :: 0 <= i && i < __idx() ==> __in(KeyOf(peerSet.Peers[i]), peerSet.ByPubKey)
+//@   loop 1 invariant[back]  forall k string :: __in(k, peerSet.ByPubKey) ==> peerSet.ByPubKey[k] != nil && KeyOf(peerSet.ByPubKey[k]) == k
+
+//@ func NewPeerSet(peers []*Peer) *PeerSet
+//@   requires len(peers) < 2147483648 && (forall i int :: 0 <= i && i < len(peers) ==> PeerOK(peers[i]))
+//@   modifies nothing
+//@   ensures[fresh] ret0 != nil && __fresh(ret0) && __eq(ret0.Peers, peers)
+//@   ensures[wf]    ret0.WF()
+
+//@ func (peerSet *PeerSet) Hash() ([]byte, error)
+//@   trusted definition of PSHashOf (the fold over SimpleHashFromTwoHashes is not interpreted)
+//@   requires peerSet != nil
+//@   modifies nothing
+//@   ensures[def] ret1 == nil && __seqeq(ret0, PSHashOf(peerSet.Peers))
